@@ -397,6 +397,15 @@ func (b *Bucket) MoveBucket(key []byte, dstBucket *Bucket) (err error) {
 		return errors.ErrIncompatibleValue
 	}
 
+	// The destination must not be the bucket being moved or one of its
+	// descendants: the moved bucket would end up detached from the tree. A
+	// destination inside it can only have been reached through the opened
+	// (cached) sub-buckets of the moved bucket.
+	if child := b.buckets[string(newKey)]; child != nil && (child == dstBucket || child.hasOpened(dstBucket)) {
+		lg.Errorf("The target bucket (%s) is inside the bucket being moved (%s)", dstBucket, newKey)
+		return errors.ErrSameBuckets
+	}
+
 	// remove the sub-bucket from the source bucket
 	delete(b.buckets, string(newKey))
 	c.node().del(newKey)
@@ -406,6 +415,17 @@ func (b *Bucket) MoveBucket(key []byte, dstBucket *Bucket) (err error) {
 	curDst.node().put(newKey, newKey, newValue, 0, common.BucketLeafFlag)
 
 	return nil
+}
+
+// hasOpened reports whether target is among the sub-buckets opened below b
+// in this transaction.
+func (b *Bucket) hasOpened(target *Bucket) bool {
+	for _, child := range b.buckets {
+		if child == target || child.hasOpened(target) {
+			return true
+		}
+	}
+	return false
 }
 
 // Inspect returns the structure of the bucket.
